@@ -21,6 +21,7 @@ class State(object):
         self.issues = []
         self.ufs = {}
         self.reads = []         # (addr term, nbytes) of memory reads performed by den
+        self.defined = []       # conditions under which architecturally/IR-undefined results do not occur (bsf/bsr of 0, division by 0)
     def reg(self, name, size):
         k = (name, size)
         if k not in self.regs:
@@ -38,6 +39,9 @@ class State(object):
         s = State(self.prefix, self.mem)
         s.regs = dict(self.regs)
         s.ufs = self.ufs
+        s.defined = self.defined
+        s.reads = self.reads
+        s.issues = self.issues
         return s
 
 def fit(v, w):
@@ -263,6 +267,7 @@ def den_op(e, st):
                 q = z3.UDiv(big, dd)
                 r = z3.URem(big, dd)
             undef = st.uf(op + '_divzero', [n, n], n)(hi, lo)
+            st.defined.append(d != 0)
             return fit(z3.If(d == 0, undef, z3.Extract(n - 1, 0, r if rem else q)), w)
     if op in ('<<<c_rez', '<<<c_cf', '>>>c_rez', '>>>c_cf') and len(vs) == 3:
         a, c, cf = vs
@@ -281,6 +286,8 @@ def den_op(e, st):
         x = vs[-1]
         n = x.size()
         undef = st.uf(op + '_zero', [n], n)(x) if len(vs) == 1 else fit(vs[0], n)
+        if len(vs) == 1:
+            st.defined.append(x != 0)
         r = undef
         rng = range(n - 1, -1, -1) if op == 'bsf' else range(n)
         for i in rng:
